@@ -233,7 +233,7 @@ func (x *Exec) call(st *State, call *ast.CallExpr) []Term {
 
 func (x *Exec) callInner(st *State, call *ast.CallExpr) []Term {
 	c := x.c()
-	x.curPos = call.Pos()
+	x.curPos = call.End() // literals among the arguments of this very call exist when the callee runs
 	// conversion
 	if tv, ok := x.info.Types[call.Fun]; ok && tv.IsType() {
 		return []Term{x.convert(st, call)}
